@@ -257,10 +257,20 @@ def coq_observer(schema, op):
     return {"bytes": "BBytes", "len": "BLen", "bool": "BBool", "repr": "BRepr"}[k]
 
 
+def safe_repr(m, n=1500):
+    """repr of a replica: repr() is one of the observers under test, it must not touch the object itself"""
+    try:
+        return repr(raw_clone(m))[:n]
+    except RecursionError:
+        return "<repr: RecursionError>"
+    except Exception as e:  # noqa
+        return f"<repr raised {type(e).__name__}>"
+
+
 def describe_op(op):
     d = {k: v for k, v in op.items() if k != "other"}
     if "other" in op:
-        d["other"] = repr(op["other"])[:300]
+        d["other"] = safe_repr(op["other"], 300)
     return d
 
 
@@ -282,6 +292,8 @@ def gen_presence_path(schema, ci, m, rng):
         except AttributeError:
             steps.append(f"(SField {i}%nat)")
             return steps, None
+        if f.card in ("repeated", "map") and not isinstance(v, (list, dict)):
+            return steps + [f"(SField {i}%nat)"], None
         if f.card == "repeated":
             k = rng.randrange(len(v) + 1)
             steps.append(f"(SItem {i}%nat {k}%nat)")
@@ -457,7 +469,7 @@ def run_history(R, si, ci, m, ops, rng, label, second_round=True, in_range=True)
     sc = f"sc{si}"
     trail = []
     try:
-        start_repr = f"[{label}] " + repr(m)[:1500]
+        start_repr = f"[{label}] " + safe_repr(m)
         depth = msggen.depth_of(m) + 2
         probes = [raw_clone(m), s.classes[ci].py(), msggen.gen_message(s, ci, rng)]
         changed_state = False
@@ -576,7 +588,7 @@ def run_history(R, si, ci, m, ops, rng, label, second_round=True, in_range=True)
                 if pa != pb:
                     problems.append("presence report below the top-level flag differs")
             for p in problems:
-                R.fail("oracle", p, None, info(), copy_repr=repr(r)[:1500])
+                R.fail("oracle", p, None, info(), copy_repr=safe_repr(r))
             results.append((kind, r))
             # ---- independence (implementation only)
             snap = lit(s, m)
@@ -606,6 +618,10 @@ def run_history(R, si, ci, m, ops, rng, label, second_round=True, in_range=True)
         ctx.count("abandoned:RecursionError")
     except msggen.Unmodellable:
         ctx.count("unmodellable")
+    except Exception as e:  # noqa  -- the object is in a state the harness cannot even walk: that is a failure of the property
+        import traceback
+        R.fail("oracle", f"the history left the message in a state that cannot be examined ({type(e).__name__}: {e})", None,
+               history_info(s, ci, "[" + label + "]", trail), traceback=traceback.format_exc()[-1500:])
 
 
 # --------------------------------------------------------------------------------------------------
@@ -744,7 +760,15 @@ def run(ctx):
     import time
     t_py = time.time() - ctx.t0
     ctx.notes.append(f"python phase done at {t_py:.1f}s, {len(R.pairs)} correspondence cases, {sum(len(a) + len(b) for a, b in R.pairs)} characters")
-    bad = lib.coq_compare(ctx, "c14", IMPORTS, R.pairs, chunk=60, prelude=prelude)
+    try:
+        bad = lib.coq_compare(ctx, "c14", IMPORTS, R.pairs, chunk=60, prelude=prelude)
+    except RuntimeError as e:
+        if "inconsistent assumptions" not in str(e):
+            raise
+        # another check regenerated coq/gen/*.v while this one was running: rebuild once and evaluate again
+        ctx.notes.append("compiled libraries changed under the run (concurrent build): rebuilt and re-evaluated")
+        lib.build(ctx, ["Properties/C14.vo"] + EXTRA_TARGETS)
+        bad = lib.coq_compare(ctx, "c14r", IMPORTS, R.pairs, chunk=60, prelude=prelude)
     ctx.notes.append(f"coq phase took {time.time() - ctx.t0 - t_py:.1f}s")
     for i in bad[:12]:
         meta = R.meta[i]
